@@ -138,6 +138,23 @@ CLAIMS = {
         technique="stack-effect pairing and ordering on structured paths, role templates over canonical forms, "
                   "index-space inference",
     ),
+    "C04": dict(
+        category="other",
+        text="Longest match and first-listed priority are decided as structural facts for every term set and input: "
+             "dfa_match snapshots (length, priority slot 0) at every accepting state and scans while transitions "
+             "exist (MATCH, role template); slot order equals listing order because add_conflicted_term is the only "
+             "writer and fills the first free slot, terms are added in ascending index by an ordered fold, each "
+             "term's states are marked before being alt()-ed INTO the earlier terms' automaton and merge appends "
+             "(PRIO); the whitespace sets are read from the constant tables and the skip loop's advance condition is "
+             "extracted path-wise (WS); the functor receives exactly [current_it, current_it+len) of the caller's "
+             "buffer (SLICE); a failed match reports once and returns the sentinel (GCT); iterators are compared "
+             "with the end before every dereference (ITER); byte tables are indexed through char_to_idx (CHARIDX).",
+        design_ref="DESIGN.md 5/C04",
+        note=TB + " Not decided: that the merged automaton recognises the union of the terms' languages with the "
+                  "right winner in every state (algorithmic, see C03).",
+        technique="role templates over canonical forms, writer/reader analysis, constant-table reading, path-wise "
+                  "condition extraction, finite-domain interpretation of get_current_term",
+    ),
 }
 
 NOT_APPLICABLE = {
